@@ -432,6 +432,34 @@ def rand_message(rng, cfg, codec, with_pds=None, bits=None, nbits=None):
     return m
 
 
+def sized_message(rng, size):
+    """a message for the PACKAGED configuration whose encoding is exactly `size` bytes (24 <= size <= 4028), in every codec:
+    MTI, bitmap and plain LLLVAR text elements (72, 111, 127, 54) of letters and digits"""
+    rest = size - 20
+    m = {'MTI': ''.join(rng.choice('0123456789') for _ in range(4))}
+    bits = [72, 111, 127, 54]
+    if not 4 <= rest <= 4 * 1002:
+        raise ValueError(size)
+    k = max(1, (rest + 1001) // 1002)
+    if k < 4 and rest >= 4 * (k + 1) and rng.random() < 0.5:
+        k += 1
+    sizes = [4] * k
+    left = rest - 4 * k
+    for i in range(k):
+        add = min(998, left) if i == k - 1 else min(998, left, rng.randint(0, min(998, left)))
+        sizes[i] += add
+        left -= add
+    i = 0
+    while left > 0:                      # spread what is still left over the elements that have room
+        add = min(1002 - sizes[i], left)
+        sizes[i] += add
+        left -= add
+        i += 1
+    for b, n in zip(bits, sizes):
+        m['DE%d' % b] = ''.join(rng.choice('ABCDEFGHIJKLMNOPQRSTUVWXYZ0123456789') for _ in range(n - 3))
+    return m
+
+
 def rand_message_fit(rng, cfg, codec, limit=5900, **kw):
     """a well-formed message whose encoding fits one VBS record (MAX_VBS_RECORD_LENGTH)"""
     for _ in range(50):
@@ -545,6 +573,9 @@ def collision_cases(rng, n):
                     n_dates = len(wbits) - 4
                     wcfg, wm = mk(rng.sample(fmts * 2, n_dates) if n_dates <= 2 * len(fmts) else [rng.choice(fmts) for _ in range(n_dates)],
                                   rng.random() < 0.8, bits=wbits)
+                    if rng.random() < 0.5:
+                        # ... and listed in the same order as the case's configuration: even the sequence of keys agrees
+                        wcfg = {k: wcfg[k] for k in cfg}
                 else:
                     wcfg, wm = mk(rng.sample(fmts, rng.randint(1, len(fmts))), rng.random() < 0.7)
                 warm.append({'cfg': wcfg, 'codec': rng.choice([codec, rng.choice(CODECS)]), 'hex': rng.random() < 0.5, 'msg': dict_text(wm),
